@@ -4,7 +4,6 @@ import (
 	"fmt"
 	"go/token"
 	"go/types"
-	"sort"
 	"strings"
 
 	"golang.org/x/tools/go/ssa"
@@ -60,6 +59,19 @@ func (f *FnVC) call(st *State, instr ssa.Instruction, c *ssa.CallCommon, pos tok
 	if b, ok := c.Value.(*ssa.Builtin); ok {
 		if v, ok2 := instr.(ssa.Value); ok2 {
 			rt = v.Type()
+		}
+		if f.Ct != nil && len(f.Ct.AtCalls) > 0 {
+			var bargs []Val
+			for _, a := range c.Args {
+				bargs = append(bargs, f.get(a))
+			}
+			site := f.noteSite(st, c, b.Name(), bargs, Val{}, pos)
+			res := f.builtin(st, b, c, rt, pos)
+			if site != nil {
+				site.res = res
+				site.postSt = st.clone()
+			}
+			return res
 		}
 		return f.builtin(st, b, c, rt, pos)
 	}
@@ -125,6 +137,9 @@ func (f *FnVC) doCall(st *State, instr ssa.Instruction, c *ssa.CallCommon, keys 
 
 func matchCallee(pattern, display string) bool {
 	if pattern == display {
+		return true
+	}
+	if strings.HasSuffix(pattern, "*") && strings.HasPrefix(display, strings.TrimSuffix(pattern, "*")) {
 		return true
 	}
 	sk := shortKey(display)
@@ -444,27 +459,20 @@ func (f *FnVC) havocCall(st *State, fn *ssa.Function, c *ssa.CallCommon, args []
 func (f *FnVC) havocByModset(st *State, fn *ssa.Function, c *ssa.CallCommon, args []Val) {
 	ms := f.E.modsetOfCall(f, fn, c)
 	before := st.clone()
+	// State guarded by a lock we hold exclusively cannot be written by other goroutines, and code we reach only through
+	// function values (unknown effects) is assumed to respect the lock discipline, i.e. not to write it either (it could
+	// not acquire the lock). Components the callee is *known* to write are never kept.
+	var keeps []keepRec
+	if ms.all {
+		keeps = f.guardedKeeps(st, f.modsetCompNames(ms))
+	}
 	f.preserveLocalsOnHavoc = true
+	f.havocKeeps = keeps
 	f.havocModset(st, ms)
 	f.preserveLocalsOnHavoc = false
-	// memory of non-escaping locals of this function cannot be touched by a callee
-	if st.Epoch == before.Epoch && len(st.Locals) > 0 {
-		var names []string
-		for name, t := range st.Heap {
-			if old, ok := before.Heap[name]; (!ok || old.S != t.S) && strings.HasPrefix(t.Sort, "(Array Int ") && name != heldComp {
-				names = append(names, name)
-			}
-		}
-		sort.Strings(names)
-		for _, name := range names {
-			old := f.comp(before, name, st.Heap[name].Sort)
-			cur := st.Heap[name]
-			for _, r := range st.Locals {
-				cur = store(cur, r, sel(old, r))
-			}
-			st.Heap[name] = f.SC.Define("H_"+name, cur)
-		}
-	}
+	f.havocKeeps = nil
+	// memory of non-escaping locals cannot be touched by a callee
+	f.applyKeeps(st, before, st.Locals, nil)
 	// memory reachable from the arguments (one level) for callees outside the analysed module
 	if ms.argReach && !ms.all {
 		for _, a := range args {
